@@ -4,12 +4,10 @@ go 1.23
 
 require (
 	github.com/anishathalye/porcupine v1.3.0
+	github.com/mattn/go-runewidth v0.0.14
 	go.pennock.tech/tabular v0.0.0
 )
 
-require (
-	github.com/mattn/go-runewidth v0.0.14 // indirect
-	github.com/rivo/uniseg v0.4.4 // indirect
-)
+require github.com/rivo/uniseg v0.4.4 // indirect
 
 replace go.pennock.tech/tabular => /repo
